@@ -24,6 +24,8 @@
 //   for_each: cat=0(vector)|1(list)|2(forward_list)
 // C++ only drives, records, projects; every verdict is TLC's.
 #include <dispenso/for_each.h>
+
+#include <memory>
 #include <dispenso/parallel_for.h>
 
 #include <signal.h>
@@ -253,9 +255,26 @@ static void callFe(World* w, TaskSetT& ts, It begin) {
   o.maxThreads = sc.get("mtneg", 0) ? 0xFFFFFFFFu : (uint32_t)sc.get("mt", 2147483647LL);
   o.wait = sc.get("wait", 1) != 0;
   auto f = [w](Elem& x) { elemImpl(w, x); };
+  // every other call hands the functor over as an RVALUE that owns move-sensitive state by value (a vector and a
+  // shared_ptr): for_each must apply THE functor it was given to every element, so each chunk needs an intact copy; a
+  // copy whose state is gone does not apply the element (the specification then rejects the call's return)
+  static int calls = 0;
+  const bool rvalue = (calls++ & 1) != 0;
+  std::vector<int> tbl{3, 1, 4};
+  auto sp = std::make_shared<int>(42);
   ev(w, "call", -1, 0);
   ctl::point("LpCalled");
-  dispenso::for_each_n(ts, begin, (size_t)sc.get("n", 8), f, o);
+  if (rvalue) {
+    dispenso::for_each_n(
+        ts, begin, (size_t)sc.get("n", 8),
+        [w, tbl, sp](Elem& x) {
+          if (tbl.size() == 3 && tbl[2] == 4 && sp && *sp == 42)
+            elemImpl(w, x);
+        },
+        o);
+  } else {
+    dispenso::for_each_n(ts, begin, (size_t)sc.get("n", 8), f, o);
+  }
   ctl::point("LpRet");
   ev(w, "ret", 0, 0);
   ctl::point("LpRetd");
